@@ -36,7 +36,10 @@ func canonBuild(text string, mach *xpath.Machine, err error, withProg bool) stri
 	if err != nil {
 		msg := err.Error()
 		if strings.HasPrefix(msg, "Empty XPATH expression") {
-			return "err:empty"
+			if text == "" {
+				return "err:empty"
+			}
+			return "err:-1:E-unquoted" // the fixed message for an expression that is not empty: nothing quoted, no mark
 		}
 		m := markRe.FindStringSubmatch(msg)
 		mark := -1
